@@ -56,6 +56,23 @@ fn main() {
             "saveload-uuid" => saveload::run_history::<saveload::Uuid>(&ints),
             "unwind" => unwind::run_history(&ints),
             "hibit" => hibit::run_case(&ints),
+            // the same history driven from a destructor while a panic raised by the caller unwinds (C20: nothing
+            // observable depends on ambient thread state); only for histories known not to panic
+            "world-unwinding" => {
+                struct CallerPanic;
+                struct Guard<'a>(&'a [i64], &'a mut Vec<Vec<i64>>);
+                impl<'a> Drop for Guard<'a> {
+                    fn drop(&mut self) {
+                        *self.1 = world_exec::run_history(self.0);
+                    }
+                }
+                let mut tr = Vec::new();
+                let _ = std::panic::catch_unwind(std::panic::AssertUnwindSafe(|| {
+                    let _g = Guard(&ints, &mut tr);
+                    std::panic::panic_any(CallerPanic);
+                }));
+                tr
+            }
             d => panic!("unknown domain {}", d),
         };
         let parts: Vec<String> = tr
